@@ -1,4 +1,5 @@
 import MithrilModel.LotteryProofs
+import MithrilModel.LotteryMono
 /-!
 # C08 — The signing lottery is exact, deterministic and monotone in stake
 
@@ -131,6 +132,22 @@ theorem C08_exact (N : Nat) (q x : Rat) (hx : 0 ≤ x) (hx2 : x ≤ 3 / 2)
       have := C08_false_correct N q x hx hx2 hf
       linarith
     · exact absurd hlt (not_lt.mpr hb)
+
+/-- the exponent grows with the stake (`c = ln(1 - phi_f) ≤ 0`) -/
+theorem exponent_mono_stake (c : Rat) (hc : c ≤ 0) (s s' total : Nat) (h : s ≤ s') (ht : 0 < total) :
+    -((s : Rat) / (total : Rat) * c) ≤ -((s' : Rat) / (total : Rat) * c) := by
+  have h1 : (s : Rat) / (total : Rat) ≤ (s' : Rat) / (total : Rat) := by
+    apply div_le_div_of_nonneg_right (by exact_mod_cast h)
+    exact_mod_cast ht.le
+  nlinarith
+
+/-- **monotone in stake (early-exit form)**: a draw that wins with exponent `x` is never decided "lost" by
+an early exit at a larger exponent `x'` (= larger stake, by `exponent_mono_stake`): every round's early-lost
+threshold `S x' k + 3·T x' k` stays above the compared value. A "lost" at `x'` can then only be the
+fall-through after all rounds stayed undecided, i.e. inside the band. Unconditional in `x`. -/
+theorem C08_mono_stake_early (b : Nat) (q x x' : Rat) (hx : 0 ≤ x) (hxx : x ≤ x')
+    (h : taylor b q x = true) : ∀ k, 2 ≤ k → q ≤ S x' k + T x' k * 3 :=
+  taylor_true_no_early_false b q x x' hx hxx h
 
 /-- KNOWN FINDING: outside that regime the `3·next term` error bound is invalid. phi_f = 0.95,
 stake = total, draw/2^512 = 0.945 < 0.95: the model (and the code) answer `lost`. -/
